@@ -165,12 +165,25 @@ Section S.
     intros H E. inversion H as [|? ? Ha _]; subst. rewrite E in Ha. exact Ha.
   Qed.
 
-  Lemma close_cb_J R w : J R w ->
+  (* the handover without the eager platform's immediate re-opening *)
+  Definition close_hand_lazy (a : ans) (o : bool) (w : world) : world :=
+    if o && negb (c_open (w_c w)) then close_give d a w else w.
+  Lemma close_hand_split a o w :
+    close_hand d a o w =
+    if (o && negb (c_open (w_c w))) && a_eager a then open_fn d (close_hand_lazy a o w)
+    else close_hand_lazy a o w.
+  Proof. unfold close_hand, close_hand_lazy. destruct (o && negb (c_open (w_c w))), (a_eager a); reflexivity. Qed.
+  Lemma err_close_hand_lazy0 a o w : w_err (close_hand_lazy a o w) = w_err w.
+  Proof. unfold close_hand_lazy. destruct (_ && _); [apply err_close_give|reflexivity]. Qed.
+
+  Lemma close_lazy_J R w : J R w ->
     (w_err w = false -> c_open (w_c w) = true -> c_at (w_c w) <= c_psize (w_c w)) ->
-    J R (close_cb d w).
+    J R (close_hand_lazy (hd_ans w) (c_open (w_c w)) (close_fn d (cb_enter 2 w))).
   Proof.
-    intros HJ Hb. destruct (w_err (close_cb d w)) eqn:E; [left; exact E|].
-    rewrite close_cb_eq in *. rewrite err_close_hand in E.
+    intros HJ Hb.
+    destruct (w_err (close_hand_lazy (hd_ans w) (c_open (w_c w)) (close_fn d (cb_enter 2 w)))) eqn:E;
+      [left; exact E|].
+    rewrite err_close_hand_lazy0 in E.
     set (w1 := cb_enter 2 w) in *.
     rewrite close_fn_eq in *.
     set (f := has_member (d_pc d) "timestamp_end") in *.
@@ -190,7 +203,7 @@ Section S.
     destruct (negb (c_enabled (w_c w2)) && negb (c_in_ts (w_c w2))).
     - (* tracing disabled outside a tracing section: nothing happens *)
       assert (X : c_open (w_c (set_c w2 (set_in_ts (w_c w2) false))) = c_open (w_c w2)) by reflexivity.
-      unfold close_hand. rewrite X, S7, andb_negb_r.
+      unfold close_hand_lazy. rewrite X, S7, andb_negb_r.
       right. exists K, cur. split; [|exact F]. eapply HI_core; [|exact H]. apply sc_in_ts.
     - destruct (c_open (w_c w2)) eqn:Hop; cbn [negb].
       + (* effective closing *)
@@ -199,7 +212,7 @@ Section S.
         set (w3 := close_do d ts w2) in *.
         destruct H as (H1 & H2 & H3 & H4 & H5 & H6 & H7 & H8 & H9 & H10 & H11).
         right. exists (K ++ [k]), []. split; [|rewrite flat_app; unfold flat at 2; cbn [flat_map]; rewrite K1, !app_nil_r; exact F].
-        unfold close_hand. rewrite <- S7, C1. cbn [andb negb].
+        unfold close_hand_lazy. rewrite <- S7, C1. cbn [andb negb]. unfold close_give. cbv zeta.
         set (pk := EPacket (c_psize (w_c w3)) (bytes_of_stream bo (c_s (w_c w3)) (c_psize (w_c w3) / 8))) in *.
         set (m := if has_tse d then [ETs 1 ts] else []) in *.
         assert (Hobs : obs (w_log w3 ++ [pk]) = (obs (w_log w2) ++ m) ++ [pk]).
@@ -236,9 +249,18 @@ Section S.
         * unfold History.HI, len_ok, ts_ok in *. up. rewrite Hobs, Q3, C1, C4, C5, Q5, C3.
           repeat split; auto; try congruence.
       + (* no packet open *)
-        unfold close_hand. rewrite <- S7. cbn [andb].
+        unfold close_hand_lazy. rewrite <- S7. cbn [andb].
         right. exists K, cur. split; [|exact F]. eapply HI_core; [|exact H].
         unfold History.same_core. up. repeat split; auto.
+  Qed.
+
+  Lemma close_cb_J R w : J R w ->
+    (w_err w = false -> c_open (w_c w) = true -> c_at (w_c w) <= c_psize (w_c w)) ->
+    J R (close_cb d w).
+  Proof.
+    intros HJ Hb. rewrite close_cb_eq, close_hand_split.
+    pose proof (close_lazy_J R w HJ Hb) as L.
+    destruct (_ && _); [apply open_fn_J|]; exact L.
   Qed.
 
   Lemma close_section_J R w : J R w -> c_in_ts (w_c w) = true ->
